@@ -281,7 +281,7 @@ def elk_pat(p):
     if t == 'lit':
         return elk_scalar(p[1])
     if t == 'interp':
-        return '"%s#{%s}"' % (p[1], p[2])
+        return '"%s${%s}"' % (p[1], p[2])
     if t == 'rng':
         return "%s%s%s" % ("" if p[2] is None else elk_scalar(p[2]), RNG_OPS[p[1]], "" if p[3] is None else elk_scalar(p[3]))
     if t == 'list':
@@ -722,16 +722,17 @@ def impl_results(ans, nvalues, cases):
 def run_switch_lines(lines, tag="S", workers=8, vty="any"):
     """Runs each line as one Elk program; returns per line (answer dict, canonical results)."""
     parsed = [parse_line(l) for l in lines]
-    reqs = [{"id": "%s%d" % (tag, i), "src": switch_program("P%s%d" % (tag, i), env, cases, values, vty), "timeout_ms": 10000}
+    reqs = [{"id": "%s%d" % (tag, i), "src": switch_program("P%s%d" % (tag, i), env, cases, values, vty), "timeout_ms": 30000}
             for i, (env, cases, values) in enumerate(parsed)]
     n = max(1, min(workers, len(reqs) // 20 + 1))
     chunks = [reqs[i::n] for i in range(n)]
     with cf.ThreadPoolExecutor(n) as ex:
         res = list(ex.map(vlib.run_programs, chunks))
-    answers = [None] * len(reqs)
-    for ci, ch in enumerate(res):
-        for j, a in enumerate(ch):
-            answers[ci + j * n] = a
+    byid = {}
+    for ch in res:
+        for a in ch:
+            byid[a.get("id")] = a
+    answers = [byid.get(r["id"], {"id": r["id"], "outcome": "fatal", "diags": [], "stdout": "", "panic": "no answer"}) for r in reqs]
     return [(a, impl_results(a, len(parsed[i][2]), parsed[i][1]) if not a.get("rejected") and a["outcome"] != "rejected" else None)
             for i, a in enumerate(answers)]
 
@@ -1044,6 +1045,8 @@ def judge(line, impl, model_ans):
     want = [py_select(env, cases, v) for v in values]
     mres = model_results(model_ans, cases)
     a, ires = impl
+    if a["outcome"] in ("timeout", "fatal") and not a.get("stdout"):
+        return ("no-answer", a["outcome"] + " " + str(a.get("panic", "")))
     if ires is None:
         return ("rejected", "; ".join(d["msg"] for d in a.get("diags", []))[:300])
     for i, v in enumerate(values):
@@ -1131,6 +1134,7 @@ def check_select(ctx, lines, label, tag):
     ok = True
     reported = 0
     rejected = []
+    noans = []
     for ln, im, mo in zip(lines, impl, model):
         env, cases, values = parse_line(ln)
         forms = set()
@@ -1147,6 +1151,10 @@ def check_select(ctx, lines, label, tag):
         if verdict is None:
             continue
         kind, detail = verdict
+        if kind == "no-answer":
+            ctx.stat("no-answer:" + detail.split(" ")[0])
+            noans.append(ln)
+            continue
         if kind == "rejected":
             ctx.stat("rejected-by-checker")
             rejected.append((ln, detail))
@@ -1182,6 +1190,8 @@ def check_select(ctx, lines, label, tag):
                    "correspondence")
     # the generator aims at switches the checker accepts for `v: any`; a few combinations (`p && q` with an
     # impossible intersection) are rejected and say nothing — but they must stay rare
+    ctx.obligation(f"{label}: every generated program was answered by the worker ({len(noans)} timeouts/crashes without output)",
+                   len(noans) <= max(1, len(lines) // 20), "machinery")
     lim = max(3, len(lines) // 8)
     ctx.obligation(f"{label}: at most {lim} of {len(lines)} generated switches rejected by the checker ({len(rejected)})",
                    len(rejected) <= lim, "generator", "; ".join(d for _, d in rejected[:3])[:400])
